@@ -42,4 +42,5 @@ def main(tier, replay=None):
                  "delivery number, documented status letter")
     res.assumptions = ["a request is valid iff it is (foop|todo)/<decimal number < 2^64> NUL with total length 7..100"]
     res.require_nonzero("evaluations", "valid_requests", "rejected_requests", "unlink_failures_injected", "children_started", "reports_checked", "spawner_opens_checked", "reports_stray", "reports_garbage", "reports_oversized")
+    lib_conformance(res, rd, src, ['num', 'io'], tier, asan=False)
     return res.finish()
